@@ -774,6 +774,20 @@ def c14_objectives(tier, seed):
                 chosen = sorted(k_ for k_, v in sol.items() if int(v) == 1)
                 if other not in chosen or (kind == "Xor" and chosen != [other]):
                     _viol(r, "c14.prioritised-item-not-selected", {"rule": rule.to_json(), "prio": {other: 1}}, chosen=chosen)
+    # a priority on a NAMED sub-proposition (a group with its own id is an ordinary boolean column): selected when asked
+    # for, avoided when asked against -- deterministic, independent of what the random part below happens to draw
+    for gid, inner in (("sport", lambda v: pg.All("p", "q", variable=v)), ("eco", lambda v: pg.Any("p", "q", variable=v)),
+                       ("Pack", lambda v: pg.AtLeast(2, ["p", "q", "r"], variable=v))):
+        for cid in ("named-%s" % gid, "main", "A"):
+            cfg0 = cc.StingyConfigurator(cc.Xor("a", "b", "c", default=["a"], variable="pick"),
+                                         pg.Imply("z", inner(gid), variable="imp"), id=cid)
+            for pv, want in ((1, 1), (2, 1), (-1, 0)):
+                sol = list(cfg0.select({gid: pv}, solver=dummy_solver))[0][0]
+                r["evaluations"] += 1
+                r["_seen"].add(("named-group", gid, pv))
+                if int(sol.get(gid, -1)) != want:
+                    _viol(r, "c14.priority-on-named-group-ignored", {"config": cfg0.to_json(), "prio": {gid: pv}},
+                          solution={str(k_): int(v) for k_, v in sol.items()}, expected={gid: want})
     # a default list of several entries: the FIRST listed entry is the default, whatever the order of the items
     for kind in ("Xor", "Any"):
         for xs, dl in ((["petrol", "diesel", "electric"], ["electric", "diesel"]), (["m", "a", "c"], ["c", "a"]),
